@@ -1,42 +1,48 @@
 #!/bin/bash
-# usage: run_corpus.sh <property-id>|all
-# Runs the must-fail mutants (selftest/mutants/<id>_*.patch: govc must report a violation) and the
-# must-not-alarm controls (selftest/neutral/<id>_*.patch: govc must stay green) on scratch copies.
-sel=$1
+# usage: run_corpus.sh <property-id>|all [jobs]
+# Runs the must-fail mutants (selftest/mutants/<id>_*.patch: govc must report a violation), the changes seeded
+# by independent sub-agents (/verif/seeded/<id>[-n]/patch.diff: must be detected too, unless documented as
+# NOT_DETECTABLE) and the must-not-alarm controls (selftest/neutral/<id>_*.patch: govc must stay green), each
+# on its own scratch copy of /repo. Up to [jobs] cases run side by side (default 4).
+sel=$1; jobs=${2:-4}
 cd /verif/selftest
-miss=0; n=0
 shopt -s nullglob nocaseglob
+list=$(mktemp /tmp/vf-corpus-XXXXXX)
 for p in mutants/*.patch; do
   b=$(basename $p .patch); id=$(echo ${b%%_*} | tr a-z A-Z)
   [ "$sel" != all ] && [ "$id" != "$sel" ] && continue
-  n=$((n+1))
-  out=$(REPLAYS=/tmp/vf-replays-corpus ./run_mutant.sh $PWD/$p $id -noreplay 2>&1); rc=$?
-  if echo "$out" | grep -q '^STALE'; then echo "SELFTEST stale $b"; continue; fi
-  want=$(grep -h '^# expect:' $p | head -1 | sed 's/# expect: *//')
-  if [ $rc -ne 1 ]; then echo "SELFTEST-MISS $b: mutant not detected (rc=$rc)"; miss=$((miss+1)); continue; fi
-  if [ -n "$want" ] && ! echo "$out" | grep -q "obligation=$want"; then echo "SELFTEST-MISS $b: expected obligation $want not among failures"; miss=$((miss+1)); continue; fi
-  echo "SELFTEST ok   $b (detected)"
+  echo "mutant $b $id $PWD/$p" >> $list
 done
-# changes seeded by independent sub-agents (/verif/seeded/<id>[-n]/patch.diff): must be detected too
 for p in ../seeded/*/patch.diff; do
-  b=seeded-$(basename $(dirname $p)); id=$(basename $(dirname $p)); id=${id%%-*}
+  d=$(basename $(dirname $p)); id=${d%%-*}
   [ "$sel" != all ] && [ "$id" != "$sel" ] && continue
-  [ -f $(dirname $p)/NOT_DETECTABLE ] && { echo "SELFTEST skip $b (documented as outside the contracts' reach)"; continue; }
-  n=$((n+1))
-  out=$(REPLAYS=/tmp/vf-replays-corpus ./run_mutant.sh $(readlink -f $p) $id -noreplay 2>&1); rc=$?
-  if echo "$out" | grep -q '^STALE'; then echo "SELFTEST stale $b"; continue; fi
-  if [ $rc -ne 1 ]; then echo "SELFTEST-MISS $b: seeded change not detected (rc=$rc)"; miss=$((miss+1)); continue; fi
-  echo "SELFTEST ok   $b (detected)"
+  if [ -f $(dirname $p)/NOT_DETECTABLE ]; then echo "SELFTEST skip seeded-$d (documented as outside the contracts' reach)"; continue; fi
+  echo "seeded seeded-$d $id $(readlink -f $p)" >> $list
 done
 for p in neutral/*.patch; do
   b=$(basename $p .patch); id=$(echo ${b%%_*} | tr a-z A-Z)
   [ "$sel" != all ] && [ "$id" != "$sel" ] && continue
-  n=$((n+1))
-  out=$(REPLAYS=/tmp/vf-replays-corpus ./run_mutant.sh $PWD/$p $id -noreplay 2>&1); rc=$?
-  if echo "$out" | grep -q '^STALE'; then echo "SELFTEST stale $b"; continue; fi
-  if [ $rc -ne 0 ]; then echo "SELFTEST-FALSE-ALARM $b: neutral change raised rc=$rc"; miss=$((miss+1)); continue; fi
-  echo "SELFTEST ok   $b (no alarm)"
+  echo "neutral $b $id $PWD/$p" >> $list
 done
-rm -rf /tmp/vf-replays-corpus
+one() {
+  kind=$1; b=$2; id=$3; p=$4
+  out=$(REPLAYS=/tmp/vf-replays-corpus-$$-$b /verif/selftest/run_mutant.sh $p $id -noreplay -par 6 2>&1); rc=$?
+  rm -rf /tmp/vf-replays-corpus-$$-$b
+  if echo "$out" | grep -q '^STALE'; then echo "SELFTEST stale $b"; return; fi
+  case $kind in
+    neutral)
+      if [ $rc -ne 0 ]; then echo "SELFTEST-FALSE-ALARM $b: neutral change raised rc=$rc"; else echo "SELFTEST ok   $b (no alarm)"; fi;;
+    *)
+      want=$(grep -h '^# expect:' $p | head -1 | sed 's/# expect: *//')
+      if [ $rc -ne 1 ]; then echo "SELFTEST-MISS $b: change not detected (rc=$rc)"
+      elif [ -n "$want" ] && ! echo "$out" | grep -q "obligation=$want"; then echo "SELFTEST-MISS $b: expected obligation $want not among failures"
+      else echo "SELFTEST ok   $b (detected)"; fi;;
+  esac
+}
+export -f one
+res=$(mktemp /tmp/vf-corpus-res-XXXXXX)
+xargs -a $list -P $jobs -L 1 bash -c 'one "$@"' _ | tee $res
+n=$(wc -l < $list); miss=$(grep -c 'SELFTEST-MISS\|SELFTEST-FALSE-ALARM' $res)
+rm -f $list $res
 echo "SELFTEST summary: $n cases, $miss problems"
-[ $miss -eq 0 ]
+[ "$miss" -eq 0 ]
